@@ -13,6 +13,9 @@ RULE = (
     'invalid. Non-trivial: the history contains a request naming a unit '
     'that is in flight at that moment, or two targets of one algorithm in '
     'flight together. Distinct = SHA-1 of canonical case JSON.'
+    ' Part faults adds one failing db.next() per dbfault op; in every part w'
+    'orker messages reach the farm whole or in pieces of 1..1448 bytes (cas'
+    'e key seg). '
 )
 ASSUMPTIONS = [
     'workers answer each task at most once and only tasks they were handed '
